@@ -107,16 +107,50 @@ def C14(ctx):
             break
     ctx.extra["histories"] = nh; ctx.extra["calls_in_histories"] = total; ctx.extra["threads"] = nthreads
     ctx.extra["traces_validated_against_impl"] = nh
+    # the same six ATC||UN bytes cut at every position, one live object (a cache keyed on their concatenation)
+    sp_cases = []
+    for c in ("InteracCVN133", "MasterCardCVN16", "MasterCardCVN17"):
+        for _ in range(ctx.n(6, 40)):
+            s = pool.spec(c); six = R.randbytes(6)
+            fixed = [R.randbytes(6), R.randbytes(6), R.randbytes(2), R.randbytes(5), R.randbytes(2), R.randbytes(3), R.randbytes(1)]
+            t82 = R.randbytes(2); tail = R.randbytes(8); cnt = R.randbytes(8)
+            cuts = list(range(0, 7)); R.shuffle(cuts)
+            for cut in cuts + [2]:
+                sp_cases.append(cvn_case(pool, s, "ac", (fixed + [six[cut:], t82, six[:cut]], tail, cnt), "cvn ATC||UN cut at every position"))
+    ctx.run_cases(sp_cases)
+    from props_b import cold_start
+    cold_start(ctx, ctx.n(3, 20))
+    # one mutable buffer reused across calls, rewritten in place in between (a memo holding a reference to it)
+    rb_cases = []
+    for _ in range(ctx.n(30, 300)):
+        k = g.key(); base = R.randbytes(8)
+        conts = [bytes([0, i]) + base[2:] for i in range(0x1C, 0x22)] + [R.randbytes(8) for _ in range(2)]
+        rb_cases += reused_buffer_cases(conts, lambda c, k=k: f"kd.common_sk {hx(k)} {hx(c)}",
+                                        lambda buf, k=k: kd.derive_common_sk(k, buf), "reused diversifier buffer")
+        r = R.randbytes(8)
+        rb_cases += reused_buffer_cases([g.fresh_key() for _ in range(3)], lambda c, r=r: f"kd.common_sk {hx(c)} {hx(r)}",
+                                        lambda buf, r=r: kd.derive_common_sk(buf, r), "reused key buffer")
+        d = [g.fresh_msg(30) for _ in range(3)]
+        rb_cases += reused_buffer_cases(d, lambda c, k=k: f"ac.generate_ac {hx(k)} {hx(c)} EMV -",
+                                        lambda buf, k=k: ac.generate_ac(k, buf, ac.PaddingType.EMV), "reused data buffer")
+        rb_cases += reused_buffer_cases(d, lambda c, k=k: f"sm.command_mac {hx(k)} {hx(c)} -",
+                                        lambda buf, k=k: sm.generate_command_mac(k, buf), "reused data buffer")
+        rb_cases += reused_buffer_cases(d, lambda c, k=k: f"sm.encrypt {hx(k)} {hx(c)} EMV",
+                                        lambda buf, k=k: sm.encrypt_command_data(k, buf, sm.EncryptionType.EMV), "reused data buffer")
+        rb_cases += reused_buffer_cases([g.fresh_key() for _ in range(3)], lambda c, d=d: f"sm.command_mac {hx(c)} {hx(d[0])} -",
+                                        lambda buf, d=d: sm.generate_command_mac(buf, d[0]), "reused key buffer")
+    ctx.run_cases(rb_cases)
     # no call modifies its arguments or an object's stored keys
     for _ in range(ctx.n(3000, 30000)):
         fn, args = _mutable_call(g)
-        snap = copy.deepcopy(args)
+        snap = [_freeze(a) for a in args]
         try:
             fn(*args)
         except Exception:  # noqa: BLE001
             pass
-        ctx.check("arguments not modified", all(_same_types(a, b) and a == b for a, b in zip(args, snap)),
-                  f"{fn.__module__}.{fn.__name__} modified an argument: before {[_r(a) for a in snap]} after {[_r(a) for a in args]}")
+        after = [_freeze(a) for a in args]
+        ctx.check("arguments not modified", after == snap,
+                  f"{fn.__module__}.{fn.__name__} modified an argument: before {snap!r:.300} after {after!r:.300}")
     # stored keys unchanged by methods
     for s in list(pool.specs):
         o = pool.obj(s)
@@ -129,12 +163,21 @@ def C14(ctx):
         ctx.check("stored keys unchanged by method calls", ok and (fresh.icc_mk_ac, fresh.icc_mk_smi, fresh.icc_mk_smc) == before, f"{s[0]} keys changed")
 
 
+def _freeze(x):
+    """a comparable snapshot of an argument: type and content, recursively"""
+    if hasattr(x, "items"):
+        return ("M", type(x).__name__, tuple((k, _freeze(v)) for k, v in x.items()))
+    if isinstance(x, (bytes, bytearray)):
+        return (type(x).__name__, bytes(x))
+    return (type(x).__name__, repr(x))
+
+
 def _r(a):
     return hx(a) if isinstance(a, (bytes, bytearray)) else repr(a)[:80]
 
 
 def _same_types(a, b):
-    if isinstance(a, dict):
+    if hasattr(a, 'items'):
         return isinstance(b, dict) and list(a) == list(b) and all(_same_types(a[k], b[k]) for k in a)
     return type(a) is type(b)
 
@@ -165,23 +208,22 @@ def _mutable_call(g):
 # ---------------------------------------------------------------------------------------------
 
 def sized_params(g):
-    """(name, number of sized parameters, builder(lengths) -> Case) for every public function"""
+    """(name, documented sizes, builder(values) -> Case) for every public function"""
     R = g.R
-    rb = R.randbytes
 
     def P(name, sizes, build):
         return (name, sizes, build)
     return [
-        P("ac.generate_ac", [16], lambda n: op_generate_ac(rb(n[0]), g.msg(), "EMV", None, proj="class")),
-        P("ac.arpc1", [16, 8, 2], lambda n: op_arpc1(rb(n[0]), rb(n[1]), rb(n[2]), proj="class")),
-        P("ac.arpc2", [16, 8, 4], lambda n: op_arpc2(rb(n[0]), rb(n[1]), rb(n[2]), R.choice([None, rb(R.randrange(0, 9))]), proj="class")),
-        P("kd.common_sk", [16, 8], lambda n: op_common_sk(rb(n[0]), rb(n[1]), proj="class")),
-        P("kd.visa_sk", [16, 2], lambda n: op_visa_sk(rb(n[0]), rb(n[1]), proj="class")),
-        P("kd.tree_sk", [16, 2, 16], lambda n: op_tree_sk(rb(n[0]), rb(n[1]), 8, 4, rb(n[2]), proj="class")),
-        P("sm.command_mac", [16], lambda n: op_command_mac(rb(n[0]), g.msg(), None, proj="class")),
-        P("sm.encrypt", [16], lambda n: op_encrypt(rb(n[0]), g.msg(), R.choice(["VISA", "MASTERCARD", "EMV"]), proj="class")),
-        P("sm.vis_pin", [16], lambda n: op_vis_pin(rb(n[0]), g.form(g.digits(R.randrange(4, 13))), g.form(R.choice([None, g.digits(R.randrange(4, 13))])), proj="class")),
-        P("cvv.cvc3", [16, 2, 4], lambda n: op_cvc3(rb(n[0]), g.msg(), rb(n[1]), rb(n[2]), proj="class")),
+        P("ac.generate_ac", [16], lambda v: op_generate_ac(v[0], g.msg(), "EMV", None, proj="class")),
+        P("ac.arpc1", [16, 8, 2], lambda v: op_arpc1(v[0], v[1], v[2], proj="class")),
+        P("ac.arpc2", [16, 8, 4], lambda v: op_arpc2(v[0], v[1], v[2], R.choice([None, R.randbytes(R.randrange(0, 9))]), proj="class")),
+        P("kd.common_sk", [16, 8], lambda v: op_common_sk(v[0], v[1], proj="class")),
+        P("kd.visa_sk", [16, 2], lambda v: op_visa_sk(v[0], v[1], proj="class")),
+        P("kd.tree_sk", [16, 2, 16], lambda v: op_tree_sk(v[0], v[1], 8, 4, v[2], proj="class")),
+        P("sm.command_mac", [16], lambda v: op_command_mac(v[0], g.msg(), None, proj="class")),
+        P("sm.encrypt", [16], lambda v: op_encrypt(v[0], g.msg(), R.choice(["VISA", "MASTERCARD", "EMV"]), proj="class")),
+        P("sm.vis_pin", [16], lambda v: op_vis_pin(v[0], g.form(g.digits(R.randrange(4, 13))), g.form(R.choice([None, g.digits(R.randrange(4, 13))])), proj="class")),
+        P("cvv.cvc3", [16, 2, 4], lambda v: op_cvc3(v[0], g.msg(), v[1], v[2], proj="class")),
     ]
 
 
@@ -195,15 +237,30 @@ def C15(ctx):
             nparam += 1
             for ln in range(0, top + 1):
                 n = list(sizes); n[i] = ln
-                c = build(n); c.gen = f"sweep {name} param {i}"
+                c = build([R.randbytes(x) for x in n]); c.gen = f"sweep {name} param {i}"
                 cases.append(c)
         # two wrong parameters at once
         if len(sizes) > 1:
             for _ in range(40):
                 n = [R.choice([s, R.randrange(0, 40)]) for s in sizes]
-                c = build(n); c.gen = f"pairs {name}"
+                c = build([R.randbytes(x) for x in n]); c.gen = f"pairs {name}"
                 cases.append(c)
     ctx.exhaustive_dims.append(f"{nparam} sized parameters of 10 public functions × every length 0..{top}")
+    # the same *value* at another size, right after a valid call with it (a cache consulted before the guards)
+    def resize(v):
+        out = [v.lstrip(b"\x00"), b"\x00" + v, b"\x00\x00" + v, v + b"\x00", v[:-1], v[1:], v + v, bytes(len(v) + 1), bytes(max(0, len(v) - 1))]
+        return [x for x in out if len(x) != len(v)]
+    for name, sizes, build in sized_params(g):
+        for i in range(len(sizes)):
+            for base in (bytes(sizes[i]), bytes(sizes[i] - 1) + b"\x1c", R.randbytes(sizes[i])):
+                fixed = [R.randbytes(n) for n in sizes]
+                fixed[i] = base
+                mk = build
+                c0 = mk(fixed); c0.gen = f"valid call before resized {name}"; cases.append(c0)
+                for v in resize(base):
+                    vals = list(fixed); vals[i] = v
+                    c = mk(vals); c.gen = f"same value, other size: {name} param {i}"
+                    cases.append(c)
     # proprietary data 0..8 accepted, above refused; PIN and current PIN lengths 0..20
     for ln in range(0, top + 1):
         cases.append(op_arpc2(g.key(), R.randbytes(8), R.randbytes(4), R.randbytes(ln), gen="sweep prop auth data", proj="class"))
@@ -251,7 +308,7 @@ def C16(ctx):
     for _ in range(ctx.n(1500, 15000)):
         k = g.key()
         pan = g.digits(R.choice([1, 8, 12, 13, 15, 16, 16, 17, 18, 18, 19, 19]))
-        psn = R.choice([None, "00", "01", g.digits(2)])
+        psn = R.choice([None, "00", "01", g.digits(2), g.digits(2), "", g.digits(1), "0" + g.digits(2), g.digits(3), g.digits(4)])
         if R.random() < .1:
             pan, psn = R.choice(rare)
         for fn in (kd.derive_icc_mk_a, kd.derive_icc_mk_b):
@@ -262,7 +319,7 @@ def C16(ctx):
             n += len(outs)
             ctx.check("str and bytes forms agree", len(set(outs.values())) == 1, f"{fn.__name__}({hx(k)}, {pan!r}, {psn!r}): {outs}")
     for _ in range(ctx.n(1500, 15000)):
-        k = g.key(); pin = g.digits(R.randrange(4, 13)); cur = R.choice([None, g.digits(R.randrange(4, 13)), ""])
+        k = g.key(); pin = g.digits(R.randrange(4, 13)); cur = R.choice([None, g.digits(R.randrange(4, 13)), "", pin, pin])
         outs = {(type(a).__name__,): canon(lambda: sm.format_iso9564_2_pin_block(a)) for a in forms(pin)}
         ctx.check("str and bytes forms agree", len(set(outs.values())) == 1, f"iso2 {pin!r}: {outs}")
         outs = {}
@@ -273,8 +330,8 @@ def C16(ctx):
         ctx.check("str and bytes forms agree", len(set(outs.values())) == 1, f"vis {hx(k)} {pin!r} {cur!r}: {outs}")
     for _ in range(ctx.n(400, 4000)):
         c = R.choice(CLS); keys = (g.key(), g.key(), g.key())
-        pan = g.digits(R.choice([12, 15, 16, 17, 18, 18, 19])); psn = R.choice([None, "", "00", "01", "07", g.digits(2)])
-        pin = g.digits(R.randrange(4, 13)); cur = R.choice([None, g.digits(R.randrange(4, 13))]) if c.startswith("Visa") else None
+        pan = g.digits(R.choice([12, 15, 16, 17, 18, 18, 19])); psn = R.choice([None, "", "00", "01", "07", g.digits(2), g.digits(1), "0" + g.digits(2)])
+        pin = g.digits(R.randrange(4, 13)); cur = R.choice([None, g.digits(R.randrange(4, 13)), pin]) if c.startswith("Visa") else None
         arqc = R.randbytes(8); atc = R.randbytes(2)
         outs = {}
         for a in forms(pan):
@@ -284,7 +341,7 @@ def C16(ctx):
                     return o.icc_mk_ac + o.icc_mk_smi + o.icc_mk_smc
                 outs[("ctor", type(a).__name__, type(b).__name__)] = canon(build)
         ctx.check("str and bytes forms agree", len(set(outs.values())) == 1, f"{c}({[hx(x) for x in keys]}, {pan!r}, {psn!r}): {outs}")
-        o = getattr(cvn, c)(*keys, pan, psn)
+        o = getattr(cvn, c)(*keys, pan, psn if psn is None or len(psn) in (0, 2) else "07")
         outs = {}
         for a in forms(pin):
             for b in forms(cur):
@@ -344,6 +401,16 @@ def C19(ctx):
         else:
             iv = R.choice([bytes(8), R.randbytes(8), R.randbytes(8), b"\x00\x05" + bytes(6)]) if R.random() < .93 else R.randbytes(R.choice([0, 7, 9, 16]))
             cases.append(op_cbc(k, iv, g.msg(70), gen="cbc 8/16/24-byte keys, varying IV"))
+    # check values of a key and of its single-bit / masked neighbours, one after the other
+    for _ in range(ctx.n(60, 600)):
+        k = R.choice([g.fresh_key(), R.randbytes(8), R.randbytes(24), bytes(16)])
+        vs = [k, bytes(b ^ 0x80 for b in k), bytes(b ^ 1 for b in k), bytes(b & 0x7F for b in k), bytes(b | 0x80 for b in k), k]
+        i = R.randrange(len(k)); vs.append(k[:i] + bytes([k[i] ^ (1 << R.randrange(8))]) + k[i + 1:])
+        for v in vs:
+            cases.append(op_kcv(v, R.choice([2, 3, 8]), gen="kcv of a key and its bit neighbours"))
+    for n in ([65536, 65537, 70001] if not ctx.thorough else [65535, 65536, 65537, 65544, 70001, 131072, 200001]):
+        cases.append(op_ecb(g.key(), R.randbytes(n), gen="beyond 64 KiB"))
+        cases.append(op_cbc(g.key(), R.randbytes(8), R.randbytes(n), gen="beyond 64 KiB"))
     for _ in range(ctx.n(300, 2000)):
         s = "".join(R.choice("0123456789abcdefABCDEF" * 3 + " \t\n\r\x0b\x0c" + "gG-\xa0 ") for _ in range(R.randrange(0, 12)))
         cases.append(op_fromhex(s, gen="prelude:bytes.fromhex"))
